@@ -336,7 +336,7 @@ def exh4_graphs(lo, hi):
 
 
 def stream_random(tier, rng):
-    N = 480 if tier == "quick" else 12000
+    N = 480 if tier == "quick" else 9000
     fams = C.Labels.FAMILIES
     gs = []
     for i in range(N):
@@ -362,6 +362,23 @@ def stream_random(tier, rng):
 
 
 # ----------------------------------------------------------------------------- run / replay
+def run_items(items, deadline, ev):
+    """parallel evaluation in order (exhaustive part first); if the tier's deadline gets close the
+    remaining (random) work items are dropped and the evidence says so"""
+    import multiprocessing as mp
+    import time
+    jobs = min(16, os.cpu_count() or 1)
+    done = 0
+    with mp.get_context("fork").Pool(jobs) as pool:
+        for res in pool.imap(work, items, chunksize=1):
+            done += 1
+            yield res
+            if deadline and time.time() > deadline - 90:
+                ev.extra["truncated"] = "deadline: %d of %d work items evaluated" % (done, len(items))
+                pool.terminate()
+                break
+
+
 def still_bad(kind0):
     def f(case):
         drv = C.Driver()
@@ -470,8 +487,7 @@ def run(ctx):
     finally:
         drv.close()
     items = stream_exhaustive(tier) + stream_random(tier, rng)
-    results = C.pmap(work, items, chunksize=1) if len(items) >= 200 else [work(i) for i in items]
-    for res in results:
+    for res in run_items(items, ctx.get("deadline"), ev):
         ev.evaluations += res["n"]
         ev.nontrivial.k += 0 if res["nt_hashes"] else res["nt"]
         for hsh in res["nt_hashes"]:
